@@ -26,6 +26,10 @@ pub struct TokSpec {
   pub msg: String,
   pub footer: Option<String>,
   pub assertion: Option<String>,
+  /// when set, the token is built through the core layer with exactly this payload (whatever `layer` parses it);
+  /// `msg` is then what the parse layer must return (the payload itself at the core layer, its "data" claim otherwise)
+  #[serde(default)]
+  pub core_payload: Option<String>,
 }
 
 thread_local! {
@@ -58,7 +62,10 @@ impl TokSpec {
     }
     let km = keys::material(self.proto, &self.seed());
     let r = match km.lib() {
-      Ok(lk) => crate::rt::layer_build(self.proto, self.layer, &lk, &self.nonce, &self.msg, self.footer.as_deref(), self.assertion()).map_err(|e| e.text),
+      Ok(lk) => match &self.core_payload {
+        Some(p) => core_build(&lk, &self.nonce, p, self.footer.as_deref(), self.assertion()).map_err(|e| e.text),
+        None => crate::rt::layer_build(self.proto, self.layer, &lk, &self.nonce, &self.msg, self.footer.as_deref(), self.assertion()).map_err(|e| e.text),
+      },
       Err(e) => Err(e.text),
     };
     TOKENS.with(|c| {
@@ -457,6 +464,7 @@ pub fn fixed_spec(proto: Proto, layer: Layer, variant: u8) -> TokSpec {
     },
     footer: if with_extras { Some("{\"kid\":\"k1\"}".to_string()) } else { None },
     assertion: if with_extras && proto.has_assertion() { Some("bound-to-user-7".to_string()) } else { None },
+    core_payload: None,
   }
 }
 
@@ -545,7 +553,7 @@ pub fn tok_spec(proto: Proto, layer: Layer) -> BoxedStrategy<TokSpec> {
     prop_oneof![2 => Just(None), 1 => Just(Some(String::new())), 3 => gen::jsonish(20).prop_map(Some), 1 => gen::unicode(8).prop_map(Some)],
     prop_oneof![2 => Just(None), 1 => Just(Some(String::new())), 3 => gen::jsonish(20).prop_map(Some)],
   )
-    .prop_map(move |(key_seed, nonce, msg, footer, assertion)| TokSpec { proto, layer, key_seed, nonce, msg, footer, assertion: if proto.has_assertion() { assertion } else { None } })
+    .prop_map(move |(key_seed, nonce, msg, footer, assertion)| TokSpec { proto, layer, key_seed, nonce, msg, footer, assertion: if proto.has_assertion() { assertion } else { None }, core_payload: None })
     .boxed()
 }
 
@@ -556,6 +564,86 @@ fn random_case(proto: Proto, layer: Layer) -> BoxedStrategy<TamperCase> {
     3 => (0u8..8, tok_spec(proto, layer)).prop_map(|(k, o)| Mut::Splice(k, Box::new(o))),
   ];
   (tok_spec(proto, layer), m).prop_map(|(tok, m)| TamperCase { tok, m }).boxed()
+}
+
+// ------------------------------------------------------------------------------------------------
+// libFuzzer support (thorough tier): candidate texts against a fixed pool of deterministic authentic tokens
+
+#[derive(Clone, Debug, Serialize, Deserialize)]
+pub struct FuzzCase {
+  pub pool: u16,
+  pub text: String,
+}
+
+/// 8 protocols x 3 parse layers x {plain, footer+assertion}; built through the core layer so that the token
+/// text does not depend on the time or the process (RSA-PSS excepted, which the tolerated class covers)
+pub fn pool_specs() -> Vec<TokSpec> {
+  let mut v = vec![];
+  for proto in Proto::ALL {
+    for layer in Layer::ALL {
+      for variant in 0..2u8 {
+        let mut s = fixed_spec(proto, layer, variant);
+        let payload = format!("{{\"data\":\"payload-{}\",\"exp\":\"2999-01-01T00:00:00Z\",\"nbf\":\"2000-01-01T00:00:00Z\"}}", variant);
+        s.msg = if layer == Layer::Core { payload.clone() } else { format!("payload-{}", variant) };
+        s.core_payload = Some(payload);
+        v.push(s);
+      }
+    }
+  }
+  v
+}
+
+pub fn fuzz_decode(data: &[u8]) -> Option<FuzzCase> {
+  let (first, rest) = data.split_first()?;
+  let text = std::str::from_utf8(rest).ok()?.to_string();
+  Some(FuzzCase { pool: (*first as u16) % (pool_specs_len() as u16), text })
+}
+
+pub fn pool_specs_len() -> usize {
+  Proto::ALL.len() * 3 * 2
+}
+
+/// seed inputs: every pool token behind its pool index, plus a few near misses
+pub fn fuzz_seeds() -> Vec<Vec<u8>> {
+  let mut out = vec![];
+  for (i, s) in pool_specs().iter().enumerate() {
+    if let Ok(t) = s.token() {
+      let mut v = vec![i as u8];
+      v.extend_from_slice(t.as_bytes());
+      out.push(v);
+    }
+  }
+  out
+}
+
+pub struct TamperFuzz;
+impl Sub for TamperFuzz {
+  type Case = FuzzCase;
+  fn name(&self) -> String {
+    "C03/libfuzzer".into()
+  }
+  fn check(&self, c: &FuzzCase, cl: &mut Classes) -> Verdict {
+    let specs = pool_specs();
+    let spec = &specs[(c.pool as usize) % specs.len()];
+    let t = match spec.token() {
+      Ok(t) => t,
+      Err(_) => return Verdict::Discard,
+    };
+    if c.text == t {
+      return Verdict::Discard;
+    }
+    judge(spec, &t, &c.text, "fuzzed", cl)
+  }
+}
+
+/// entry point of the fz_tamper target: Some((signature, detail)) on an oracle violation
+pub fn fuzz_one(data: &[u8]) -> Option<(String, String)> {
+  let c = fuzz_decode(data)?;
+  let mut cl = Classes::default();
+  match TamperFuzz.check(&c, &mut cl) {
+    Verdict::Violation { sig, detail } => Some((sig, detail)),
+    _ => None,
+  }
 }
 
 fn all_subs() -> Vec<Tamper> {
@@ -571,12 +659,16 @@ fn all_subs() -> Vec<Tamper> {
 }
 
 pub fn subs() -> Vec<Box<dyn DynSub>> {
-  all_subs().into_iter().map(|s| Box::new(s) as Box<dyn DynSub>).collect()
+  let mut v: Vec<Box<dyn DynSub>> = all_subs().into_iter().map(|s| Box::new(s) as Box<dyn DynSub>).collect();
+  v.push(Box::new(TamperFuzz));
+  v
 }
 
 pub fn run(ctx: &Ctx) -> EvidenceMeta {
   let subs = all_subs();
   let mut jobs: Vec<Job> = vec![];
+  // libFuzzer artifacts and corpus (if the check script ran a campaign) are re-judged here, outside libFuzzer
+  jobs.push(Box::new(move || ctx.fuzz_inputs(&TamperFuzz, "fz_tamper", fuzz_decode)));
   for s in &subs {
     if s.kind == "exhaustive" {
       // quick: 2 tokens per (protocol, layer) (v3.public: 1, substitutions thinned); thorough: 8 tokens (v3.public 3)
